@@ -471,8 +471,6 @@ class Contract:
 
     def execute(self, interp, mod, fnode, args):
         """run the function body (or the slice) on `args`"""
-        if self.pre_execute is not None:
-            self.pre_execute(interp, mod, fnode, args)
         env = Env(None)
         for k, v in args.items():
             env.set(k, v)
